@@ -210,6 +210,7 @@ func checkC16M(rt *caseRT, st *c16mStats) []vio {
 	}
 	quota := (larger + smaller - 1) / smaller
 	prev := map[[2]string]int64{}
+	var prevSnap *mapSnap
 	for _, s := range snaps {
 		keyOf := func(p [2]string) (string, string) {
 			if s.SourceKey {
@@ -239,7 +240,7 @@ func checkC16M(rt *caseRT, st *c16mStats) []vio {
 		}
 		for p, at := range prev {
 			if !cur[p] {
-				add("C16/assignment-changed", fmt.Sprintf("[%s] pair %s -> %s held at clock %d is gone at clock %d (now: %v)", c.Note, p[0], p[1], at, s.At, s.Pairs))
+				add("C16/assignment-changed", fmt.Sprintf("[%s] pair %s -> %s held at clock %d is gone at clock %d (now: %v handlers %+v; previous snapshot: %v handlers %+v)", c.Note, p[0], p[1], at, s.At, s.Pairs, s.Handlers, prevSnap.Pairs, prevSnap.Handlers))
 			}
 		}
 		for p := range cur {
@@ -247,6 +248,7 @@ func checkC16M(rt *caseRT, st *c16mStats) []vio {
 				prev[p] = s.At
 			}
 		}
+		prevSnap = s
 		for _, h := range s.Handlers {
 			if !h.Started {
 				continue
